@@ -64,6 +64,11 @@ CHECKS = {
         text="Model/ErrorMap.lean: the error-name -> response table of an endpoint after inheritance (method, service, API level), the generated error encoder's dispatch on GoaErrorName with the default encoder (status function translated from http/error.go by gotolean, tie T1), and the generated client's dispatch by status code and goa-error header. Props/C05.lean: a declared error is written with its designed status and name header; the method's mapping wins over the service's, the service's over the API's; a plain error becomes the 500 fault; an undeclared ServiceError gets the status of its flags (full table); the client attributes a declared error to the same name also when several errors share a status; unknown statuses are never attributed to a declared error. Tie T5: scripted errors (declared incl. inherited, custom and primitive types, ServiceErrors with declared names, plain, undeclared/wrapped with all flag combinations) through generated servers and clients, wire and client error compared with drv_errmap, WriteHeader counted.",
         note="table/encode/clientName are hand-written from expr/http_endpoint.go and the templates (only the status function is translated); their agreement with generated code is established per design by execution. Error types shared by several errors, views on errors, and the goa-attribute-* headers of unmapped ErrorResult attributes are not generated yet; request-decoding error names are covered under C04.",
         ref="DESIGN.md §3 C05", technique="Lean 4 proof over a model with a translated core (gotolean) + differential execution of generated servers/clients against the Lean driver"),
+    "C06": dict(
+        category="proof",
+        text="Model/Security.lean: inheritance of requirements (NoSecurity, method, service, API), the generated endpoint's chain (requirements tried in order while the previous one failed; inside a requirement callbacks run until one refuses) with the exact callback order, and the credential a callback receives (prefix before the first space removed for header credentials). Props/C06.lean: the method runs iff unsecured or some requirement has all schemes accept; a refusal is the error of a refusing callback of the last requirement; only schemes of the effective requirements are consulted; inheritance laws; bearer prefix removal. Tie T5: every accept/reject vector x credential strings on generated servers with a recording Auther, callback sequence, credentials, scheme and required scopes, method-ran flag and the caller's error compared with drv_sec.",
+        note="The chain and inheritance models are hand-written from the template and expr/method.go; agreement with generated code is by execution per design. Usernames without ':' and printable-ASCII credentials only; methods with two credentials in one header are checked for the gate only; OAuth2 flows and gRPC metadata credentials are not exercised.",
+        ref="DESIGN.md §3 C06", technique="Lean 4 proof over the requirement-chain model + differential execution of generated secured endpoints against the Lean driver"),
     "C03": dict(
         category="proof",
         text="Same exchanges as C02, response direction: the result the stub service returns must equal what the generated client hands to the caller, with the designed status code and exactly one WriteHeader; Lean part shared with C02 (string transport of header values, partition).",
